@@ -551,3 +551,13 @@ VARIANTS += [
     dict(prop="C06", name="generate-without-feed-forward", expect="SHAPE-generator|generate:AES(index)^index",
          edits=[dict(file=PCF, find="        u128::from_le_bytes(buf) ^ index\n", replace="        u128::from_le_bytes(buf)\n")]),
 ]
+
+import json as _json, os as _os
+_C16H = _json.load(open(_os.path.join(_os.path.dirname(_os.path.abspath(__file__)), "c16_helper.json")))
+BTF = "ipa-core/src/protocol/context/batcher.rs"
+VARIANTS += [
+    dict(prop="C16", name="take-batch-helper-extracted", benign=True,
+         edits=[dict(file=BTF, find=_C16H["benign"][0], replace=_C16H["benign"][1])]),
+    dict(prop="C16", name="single-record-batch-fast-path", expect="GUARD-ready|yes-on-true-edge",
+         edits=[dict(file=BTF, find=_C16H["seeded"][0], replace=_C16H["seeded"][1])]),
+]
